@@ -169,11 +169,11 @@ func foldCallback(p *Program) (sw *ast.SwitchStmt, window types.Object, info *ty
 	info = vmPk.TypesInfo
 	for _, f := range vmPk.Syntax {
 		ast.Inspect(f, func(n ast.Node) bool {
-			lit, ok := n.(*ast.FuncLit)
-			if !ok || sw != nil {
+			body, _ := callbackBody(info, n)
+			if body == nil || sw != nil {
 				return true
 			}
-			for _, st := range lit.Body.List {
+			for _, st := range body.List {
 				s, ok := st.(*ast.SwitchStmt)
 				if !ok || s.Tag == nil {
 					continue
@@ -191,8 +191,8 @@ func foldCallback(p *Program) (sw *ast.SwitchStmt, window types.Object, info *ty
 							if as, ok := b.(*ast.AssignStmt); ok && len(as.Lhs) == 1 && len(as.Rhs) == 1 {
 								if ce, ok := as.Rhs[0].(*ast.CallExpr); ok {
 									if id, ok := ce.Fun.(*ast.Ident); ok && id.Name == "append" {
-										if lid, ok := as.Lhs[0].(*ast.Ident); ok {
-											sw, window = s, info.Uses[lid]
+										if o := lhsObject(info, as.Lhs[0]); o != nil {
+											sw, window = s, o
 										}
 									}
 								}
@@ -218,8 +218,7 @@ func ruleFoldReset(p *Program, r *Reporter) {
 		if !ok || len(as.Lhs) != 1 || len(as.Rhs) != 1 {
 			return false
 		}
-		id, ok := as.Lhs[0].(*ast.Ident)
-		if !ok || info.Uses[id] != window {
+		if lhsObject(info, as.Lhs[0]) != window {
 			return false
 		}
 		return info.Types[as.Rhs[0]].IsNil()
@@ -230,7 +229,7 @@ func ruleFoldReset(p *Program, r *Reporter) {
 			return false
 		}
 		for _, l := range as.Lhs {
-			if id, ok := l.(*ast.Ident); ok && info.Uses[id] == window {
+			if lhsObject(info, l) == window {
 				return true
 			}
 		}
@@ -473,6 +472,30 @@ var optimizerWriteSets = map[string]map[string]bool{
 	"deadcode": {"OpReturn": true},
 }
 
+// writesProgram: the function assigns to a program (code.Instructions) or to
+// one of its bytes — it is (part of) a rewriting pass.
+func writesProgram(info *types.Info, fd *ast.FuncDecl) bool {
+	if fd == nil || fd.Body == nil {
+		return false
+	}
+	writes := false
+	ast.Inspect(fd.Body, func(n ast.Node) bool {
+		if as, ok := n.(*ast.AssignStmt); ok {
+			for _, l := range as.Lhs {
+				var x ast.Expr = l
+				if ie, ok := ast.Unparen(l).(*ast.IndexExpr); ok {
+					x = ie.X
+				}
+				if tv, ok := info.Types[x]; ok && isNamed(tv.Type, "code", "Instructions") {
+					writes = true
+				}
+			}
+		}
+		return true
+	})
+	return writes
+}
+
 func ruleOptClosed(p *Program, r *Reporter) {
 	vmPk := p.ByPath[Mod+"/vm"]
 	info := vmPk.TypesInfo
@@ -482,138 +505,216 @@ func ruleOptClosed(p *Program, r *Reporter) {
 	}
 	runDecl := p.FuncDecl(a.vmRun)
 	seen := map[string]bool{}
-	for _, f := range vmPk.Syntax {
-		for _, d := range f.Decls {
-			fd, ok := d.(*ast.FuncDecl)
-			if !ok || fd == runDecl || fd.Body == nil {
-				continue
-			}
-			// only functions that write bytecode are rewriting passes
-			writes := false
-			ast.Inspect(fd.Body, func(n ast.Node) bool {
-				if as, ok := n.(*ast.AssignStmt); ok {
-					for _, l := range as.Lhs {
-						// an element of a program (code.Instructions), or the program itself
-						var x ast.Expr = l
-						if ie, ok := ast.Unparen(l).(*ast.IndexExpr); ok {
-							x = ie.X
-						}
-						if tv, ok := info.Types[x]; ok && isNamed(tv.Type, "code", "Instructions") {
-							writes = true
-						}
+	// judge one function (or a function together with the functions only it
+	// calls) as a rewriting pass
+	judge := func(fd *ast.FuncDecl, rr *Reporter) {
+		// only functions that write bytecode are rewriting passes
+		writes := false
+		ast.Inspect(fd.Body, func(n ast.Node) bool {
+			if as, ok := n.(*ast.AssignStmt); ok {
+				for _, l := range as.Lhs {
+					// an element of a program (code.Instructions), or the program itself
+					var x ast.Expr = l
+					if ie, ok := ast.Unparen(l).(*ast.IndexExpr); ok {
+						x = ie.X
+					}
+					if tv, ok := info.Types[x]; ok && isNamed(tv.Type, "code", "Instructions") {
+						writes = true
 					}
 				}
-				return true
-			})
-			if !writes {
-				continue
 			}
-			named := map[string]bool{}
-			var firstSw ast.Node
-			ast.Inspect(fd.Body, func(n ast.Node) bool {
-				switch x := n.(type) {
-				case *ast.SwitchStmt:
-					if x.Tag == nil {
-						return true
-					}
-					if tv, ok := info.Types[x.Tag]; !ok || !isOpcodeType(tv.Type) {
-						return true
-					}
-					if firstSw == nil {
-						firstSw = x
-					}
-					for _, cc := range x.Body.List {
-						for _, e := range cc.(*ast.CaseClause).List {
-							if o := opConstName(info, e); o != "" {
-								named[o] = true
-							}
-						}
-					}
-				case *ast.BinaryExpr:
-					// the same decision written as a comparison
-					if x.Op != token.EQL && x.Op != token.NEQ {
-						return true
-					}
-					for _, e := range []ast.Expr{x.X, x.Y} {
+			return true
+		})
+		if !writes {
+			return
+		}
+		named := map[string]bool{}
+		var firstSw ast.Node
+		ast.Inspect(fd.Body, func(n ast.Node) bool {
+			switch x := n.(type) {
+			case *ast.SwitchStmt:
+				if x.Tag == nil {
+					return true
+				}
+				if tv, ok := info.Types[x.Tag]; !ok || !isOpcodeType(tv.Type) {
+					return true
+				}
+				if firstSw == nil {
+					firstSw = x
+				}
+				for _, cc := range x.Body.List {
+					for _, e := range cc.(*ast.CaseClause).List {
 						if o := opConstName(info, e); o != "" {
 							named[o] = true
-							if firstSw == nil {
-								firstSw = x
-							}
 						}
 					}
 				}
-				return true
-			})
-			if firstSw == nil {
-				continue
-			}
-			sw := firstSw
-			pass := ""
-			switch {
-			case named["OpPush"]:
-				pass = "fold"
-			case named["OpReturn"]:
-				pass = "deadcode"
-			case named["OpNop"]:
-				pass = "nops"
-			case named["OpJumpIfFalse"]:
-				pass = "jumps"
-			}
-			key := fmt.Sprintf("optimizer pass in %s names only checked opcodes", fd.Name.Name)
-			if pass == "" {
-				r.Undecided(key, p.Pos(sw.Pos()), "a bytecode-rewriting function switches on opcodes "+setStr(named)+" and matches none of the known passes: its rewrites are covered by no soundness argument")
-				continue
-			}
-			seen[pass] = true
-			allowed := map[string]bool{}
-			for _, o := range optimizerRewriteSets[pass] {
-				allowed[o] = true
-			}
-			var extra []string
-			for o := range named {
-				if !allowed[o] {
-					extra = append(extra, o)
-				}
-			}
-			sort.Strings(extra)
-			// the opcodes the pass writes: byte(code.OpX) anywhere in it
-			written := map[string]bool{}
-			var firstWrite ast.Node
-			ast.Inspect(fd.Body, func(n ast.Node) bool {
-				ce, ok := n.(*ast.CallExpr)
-				if !ok || len(ce.Args) != 1 {
+			case *ast.BinaryExpr:
+				// the same decision written as a comparison
+				if x.Op != token.EQL && x.Op != token.NEQ {
 					return true
 				}
-				if tv, ok := info.Types[ce.Fun]; !ok || !tv.IsType() {
-					return true
-				}
-				if o := opConstName(info, ce.Args[0]); o != "" {
-					written[o] = true
-					if !optimizerWriteSets[pass][o] && firstWrite == nil {
-						firstWrite = ce
+				for _, e := range []ast.Expr{x.X, x.Y} {
+					if o := opConstName(info, e); o != "" {
+						named[o] = true
+						if firstSw == nil {
+							firstSw = x
+						}
 					}
 				}
+			}
+			return true
+		})
+		if firstSw == nil {
+			return
+		}
+		sw := firstSw
+		pass := ""
+		switch {
+		case named["OpPush"]:
+			pass = "fold"
+		case named["OpReturn"]:
+			pass = "deadcode"
+		case named["OpNop"]:
+			pass = "nops"
+		case named["OpJumpIfFalse"]:
+			pass = "jumps"
+		}
+		key := fmt.Sprintf("optimizer pass in %s names only checked opcodes", fd.Name.Name)
+		if pass == "" {
+			rr.Undecided(key, p.Pos(sw.Pos()), "a bytecode-rewriting function switches on opcodes "+setStr(named)+" and matches none of the known passes: its rewrites are covered by no soundness argument")
+			return
+		}
+		seen[pass] = true
+		allowed := map[string]bool{}
+		for _, o := range optimizerRewriteSets[pass] {
+			allowed[o] = true
+		}
+		var extra []string
+		for o := range named {
+			if !allowed[o] {
+				extra = append(extra, o)
+			}
+		}
+		sort.Strings(extra)
+		// the opcodes the pass writes: byte(code.OpX) anywhere in it
+		written := map[string]bool{}
+		var firstWrite ast.Node
+		ast.Inspect(fd.Body, func(n ast.Node) bool {
+			ce, ok := n.(*ast.CallExpr)
+			if !ok || len(ce.Args) != 1 {
 				return true
-			})
-			wkey := fmt.Sprintf("optimizer pass in %s writes only checked opcodes", fd.Name.Name)
-			if firstWrite != nil {
-				var ws []string
-				for o := range written {
-					if !optimizerWriteSets[pass][o] {
-						ws = append(ws, o)
-					}
+			}
+			if tv, ok := info.Types[ce.Fun]; !ok || !tv.IsType() {
+				return true
+			}
+			if o := opConstName(info, ce.Args[0]); o != "" {
+				written[o] = true
+				if !optimizerWriteSets[pass][o] && firstWrite == nil {
+					firstWrite = ce
 				}
-				sort.Strings(ws)
-				r.Undecided(wkey, p.Pos(firstWrite.Pos()), "the "+pass+" pass writes "+strings.Join(ws, ", ")+" into the program: no rule here checks an instruction of that kind when it is the optimizer that emits it (its effect on the stack, the validity of its operand — a constant reference has to name a constant of the pool the compiler built, which Dump and the driver index too)")
-			} else {
-				r.OkNT(wkey, p.Pos(sw.Pos()), pass+" pass writes: "+setStr(written))
 			}
-			if len(extra) > 0 {
-				r.Undecided(key, p.Pos(sw.Pos()), "the "+pass+" pass also rewrites around "+strings.Join(extra, ", ")+": no rule here checks that rewrite against the VM's semantics (is it an identity for values of every type and origin?), so optimizer transparency is undecided")
-			} else {
-				r.OkNT(key, p.Pos(sw.Pos()), pass+" pass: "+setStr(named))
+			return true
+		})
+		wkey := fmt.Sprintf("optimizer pass in %s writes only checked opcodes", fd.Name.Name)
+		if firstWrite != nil {
+			var ws []string
+			for o := range written {
+				if !optimizerWriteSets[pass][o] {
+					ws = append(ws, o)
+				}
 			}
+			sort.Strings(ws)
+			rr.Undecided(wkey, p.Pos(firstWrite.Pos()), "the "+pass+" pass writes "+strings.Join(ws, ", ")+" into the program: no rule here checks an instruction of that kind when it is the optimizer that emits it (its effect on the stack, the validity of its operand — a constant reference has to name a constant of the pool the compiler built, which Dump and the driver index too)")
+		} else {
+			rr.OkNT(wkey, p.Pos(sw.Pos()), pass+" pass writes: "+setStr(written))
+		}
+		if len(extra) > 0 {
+			rr.Undecided(key, p.Pos(sw.Pos()), "the "+pass+" pass also rewrites around "+strings.Join(extra, ", ")+": no rule here checks that rewrite against the VM's semantics (is it an identity for values of every type and origin?), so optimizer transparency is undecided")
+		} else {
+			rr.OkNT(key, p.Pos(sw.Pos()), pass+" pass: "+setStr(named))
+		}
+
+	}
+	var decls []*ast.FuncDecl
+	declFn := map[*ast.FuncDecl]*ssa.Function{}
+	for _, fn := range p.LibFns {
+		if fd := p.FuncDecl(fn); fd != nil && fn.Parent() == nil {
+			declFn[fd] = fn
+		}
+	}
+	for _, f := range vmPk.Syntax {
+		for _, d := range f.Decls {
+			if fd, ok := d.(*ast.FuncDecl); ok && fd != runDecl && fd.Body != nil && writesProgram(info, fd) {
+				decls = append(decls, fd)
+			}
+		}
+	}
+	// first each function by itself; a function that is not a pass of its own
+	// (it names opcodes no known pass names) and that only one other rewriting
+	// function calls is a part of that function: the two are read together
+	trial := map[*ast.FuncDecl]*Reporter{}
+	problem := map[*ast.FuncDecl]bool{}
+	for _, fd := range decls {
+		saved := map[string]bool{}
+		for k, v := range seen {
+			saved[k] = v
+		}
+		t := &Reporter{rule: r.rule, prog: r.prog}
+		judge(fd, t)
+		trial[fd] = t
+		for _, o := range t.obls {
+			if o.Verdict != OK && o.Verdict != Info {
+				problem[fd] = true
+			}
+		}
+		if problem[fd] {
+			seen = saved
+		}
+	}
+	partsOf := map[*ast.FuncDecl][]*ast.FuncDecl{}
+	isPart := map[*ast.FuncDecl]bool{}
+	for _, fd := range decls {
+		if !problem[fd] {
+			continue
+		}
+		fn := declFn[fd]
+		if fn == nil {
+			continue
+		}
+		home, _ := p.Home(fn)
+		for home != nil && home.Parent() != nil {
+			home = home.Parent()
+		}
+		if home == nil || home == fn {
+			continue
+		}
+		hd := p.FuncDecl(home)
+		if hd == nil || hd == runDecl || !writesProgram(info, hd) {
+			continue
+		}
+		partsOf[hd] = append(partsOf[hd], fd)
+		isPart[fd] = true
+	}
+	replay := func(t *Reporter) {
+		for _, o := range t.obls {
+			r.add(o.Verdict, o.Key, o.Pos, o.Detail, o.Nontrivial)
+		}
+	}
+	for _, fd := range decls {
+		switch {
+		case isPart[fd]:
+			// reported with the function that calls it
+		case len(partsOf[fd]) > 0:
+			merged := &ast.BlockStmt{List: append([]ast.Stmt{}, fd.Body.List...)}
+			for _, pd := range partsOf[fd] {
+				merged.List = append(merged.List, pd.Body.List...)
+			}
+			cp := *fd
+			cp.Body = merged
+			judge(&cp, r)
+		default:
+			replay(trial[fd])
 		}
 	}
 	for _, pass := range []string{"fold", "jumps", "nops", "deadcode"} {
